@@ -64,6 +64,14 @@ Many(dims) ==
                P(CaseOf(g, Supply(names, [good EXCEPT ![InName(i)] = sh]), <<"many_inputs", "one_varied">>))
    /\ (n >= 2 => P(CaseOf(g, Supply(names, [good EXCEPT ![InName(1)] = ConformShape(dims[1]) \o <<1>>, ![InName(2)] = <<>>]), <<"many_inputs", "two_wrong">>)))
    /\ LET gs == GraphOf(dims, {n}) IN P(CaseOf(gs, Supply(names \ {InName(n)}, good), <<"many_inputs", "last_shadowed">>))
+   \* an initializer-backed input at ANY position of the declaration order; the other inputs conforming, missing or varied
+   /\ \A k \in 1..n :
+         LET gs == GraphOf(dims, {k}) rest == names \ {InName(k)} IN
+         /\ P(CaseOf(gs, Supply(rest, good), <<"many_inputs", "one_shadowed">>))
+         /\ \A i \in (1..n) \ {k} :
+               /\ P(CaseOf(gs, Supply(rest \ {InName(i)}, good), <<"many_inputs", "one_shadowed", "one_missing">>))
+               /\ \A sh \in {[ConformShape(dims[i]) EXCEPT ![Len(dims[i])] = 7], ConformShape(dims[i]) \o <<1>>} :
+                     P(CaseOf(gs, Supply(rest, [good EXCEPT ![InName(i)] = sh]), <<"many_inputs", "one_shadowed", "one_varied">>))
 
 Init == \/ st \in [fam : {"one"}, d : UNION {[1..r -> DimKinds] : r \in 1..MaxRank}, done : {FALSE}]
         \/ \E n \in 2..MaxInputs : st \in [fam : {"many"}, dims : [1..n -> UNION {[1..r -> {DFix(2), DSym, DNone}] : r \in 1..2}], done : {FALSE}]
